@@ -6,6 +6,7 @@ import (
 	"fmt"
 	"math"
 	"math/big"
+	"math/bits"
 	"sort"
 
 	"github.com/tuneinsight/lattigo/v6/core/rgsw"
@@ -147,17 +148,38 @@ var brDeepVariants = func() []brVariant {
 	return []brVariant{a, b, c, d, e}
 }()
 
+// brLargeQVariants: single-modulus LWE samples with a 55-bit and a 60-bit modulus (the first prime of a CKKS/BGV chain:
+// the scheme-switching use case). x·2N_BR no longer fits 64 bits once Q_LWE·2N_BR > 2^64 (60 bits: every ring here;
+// 55 bits: N_BR ≥ 512); the documented switch round(x·2N/Q) is computed by the harness with big integers.
+var brLargeQVariants = func() []brVariant {
+	a := brVariants[0]
+	a.name, a.qLWE = "singleP-lwe60", one(func(l int) uint64 { return nttPrime(l, 1<<60, true, 0) })
+	b := brVariants[0]
+	b.name, b.qLWE = "singleP-lwe55", one(func(l int) uint64 { return nttPrime(l, 1<<55, true, 0) })
+	c := brVariants[3]
+	c.name, c.qLWE = "multipleP-lwe60", one(func(l int) uint64 { return nttPrime(l, 1<<60, true, 1) })
+	return []brVariant{a, b, c}
+}()
+
 type brConfig struct {
 	logNLWE, logNBR int
 	v               brVariant
 	h               int
 	a, b            float64
-	leaf            int // index into brLeaves
+	leaf            int  // index into the leaf list
+	big             bool // leaf list of the size-threshold scenarios (brBigLeaves) instead of brLeaves
+}
+
+func (cf brConfig) leaves() []brLeaf {
+	if cf.big {
+		return brBigLeaves(1<<cf.logNLWE, 1<<cf.logNBR)
+	}
+	return brLeaves(1<<cf.logNLWE, 1<<cf.logNBR)
 }
 
 func (cf brConfig) name() string {
 	return fmt.Sprintf("blindrot/%s/NLWE=%d/NBR=%d/h=%d/[%g,%g]/%s", cf.v.name, 1<<cf.logNLWE, 1<<cf.logNBR, cf.h, cf.a, cf.b,
-		brLeaves(1<<cf.logNLWE, 1<<cf.logNBR)[cf.leaf].name)
+		cf.leaves()[cf.leaf].name)
 }
 
 func (cf brConfig) keyLevelQ(br rlwe.Parameters) int {
@@ -261,6 +283,40 @@ func brLeaves(nLWE, nBR int) []brLeaf {
 	}
 	ls = append(ls, l)
 	return ls
+}
+
+// brBigLeaves: for rings where a walk over the whole circle is too expensive. "spread": four full-slot calls whose
+// 4·N_LWE grid points are spread evenly over the 2N-point circle (plus both end points and 0); "mini": three calls with
+// the slot sets {0}, {1, N−1}, {2, N/2, N−3} on special points, each replayed on a fresh evaluator.
+func brBigLeaves(nLWE, nBR int) []brLeaf {
+	full := make([]int, nLWE)
+	for i := range full {
+		full[i] = i
+	}
+	spread := brLeaf{name: "spread"}
+	calls := 4
+	if nLWE > 64 {
+		calls = 1
+	}
+	total := calls * nLWE
+	for cI := 0; cI < calls; cI++ {
+		ks := make([]int, nLWE)
+		for i := range ks {
+			ks[i] = -nBR + ((cI*nLWE+i)*2*nBR)/total
+		}
+		ks[0] = []int{-nBR / 2, nBR / 2, 0}[cI%3]
+		spread.calls = append(spread.calls, brCall{slots: full, k: ks, fnOff: cI})
+	}
+	special := []int{-nBR / 2, nBR / 2, 0, -1, 1, nBR/2 - 1, -nBR/2 + 1, nBR / 4, -nBR + 1, nBR - 1}
+	mini := brLeaf{name: "mini"}
+	for si, sl := range [][]int{{0}, {1, nLWE - 1}, {2, nLWE / 2, nLWE - 3}} {
+		ks := make([]int, nLWE)
+		for i := range ks {
+			ks[i] = special[(i+3*si)%len(special)]
+		}
+		mini.calls = append(mini.calls, brCall{slots: sl, k: ks, fnOff: si})
+	}
+	return []brLeaf{spread, mini}
 }
 
 // ---------------------------------------------------------------------------------------------
@@ -412,7 +468,7 @@ func brScenario(cf brConfig) engine.Scenario {
 		lwe, br := cf.params()
 		nLWE, nBR := lwe.N(), br.N()
 		twoN := 2 * nBR
-		leaf := brLeaves(nLWE, nBR)[cf.leaf]
+		leaf := cf.leaves()[cf.leaf]
 		uni.Seed(c, name)
 
 		skLWE := rlwe.NewKeyGenerator(lwe).GenSecretKeyNew()
@@ -463,7 +519,7 @@ func brScenario(cf brConfig) engine.Scenario {
 		eval := blindrot.NewEvaluator(br, lwe)
 		enc := rlwe.NewEncryptor(lwe, skLWE)
 		lvl := cf.v.lweLevel
-		qLWE := uni.QAtLevel(lwe, lvl).Uint64() // < 2^33 in every variant
+		qLWE := uni.QAtLevel(lwe, lvl).Uint64() // < 2^61 in every variant
 		evals := 0
 		unique, ambiguous, vacuous := 0, 0, 0
 		for ci, call := range leaf.calls {
@@ -488,6 +544,12 @@ func brScenario(cf brConfig) engine.Scenario {
 			c0 := polyU64(uni.PolyCoeffs(lwe.RingQ(), ct.Value[0], lvl, ct.IsNTT, false))
 			c1 := polyU64(uni.PolyCoeffs(lwe.RingQ(), ct.Value[1], lvl, ct.IsNTT, false))
 
+			for _, x := range append(append([]uint64{}, c0...), c1...) {
+				if hi, _ := bits.Mul64(x, uint64(twoN)); hi != 0 {
+					c.Cover("modswitch-product", "x*2N>=2^64") // the size class a 64-bit shortcut of the switch gets wrong
+					break
+				}
+			}
 			tpm := map[int]*ring.Poly{}
 			fnOf := map[int]int{}
 			for _, sl := range call.slots {
@@ -516,7 +578,7 @@ func brScenario(cf brConfig) engine.Scenario {
 				c.Fail("C20/blindrot/Evaluate/result-slots", "%s %s call %d: %d results for %d requested slots", name, leaf.name, ci, len(res), len(call.slots))
 				return
 			}
-			if leaf.name == "subsets" {
+			if leaf.name == "subsets" || leaf.name == "mini" {
 				// the evaluator above has served every previous call of this leaf; a fresh one must return the same bits
 				res2, err2 := blindrot.NewEvaluator(br, lwe).Evaluate(ct, tpm, newRecKeySet(rec.brk, rec.gkList))
 				same := err2 == nil && len(res2) == len(res)
@@ -777,7 +839,7 @@ func brScenarios(tier string) []engine.Scenario {
 				// known to panic (sample with more moduli than the BR ring): one scenario, kept apart
 				if pr == [2]int{4, 5} {
 					leaves := brLeaves(n, 1<<pr[1])
-					scs = append(scs, brScenario(brConfig{pr[0], pr[1], v, 1, -1, 1, len(leaves) - 1}))
+					scs = append(scs, brScenario(brConfig{pr[0], pr[1], v, 1, -1, 1, len(leaves) - 1, false}))
 				}
 				continue
 			}
@@ -789,9 +851,9 @@ func brScenarios(tier string) []engine.Scenario {
 					continue // thorough: the extra variants on the largest pair with the extreme weights
 				}
 				leaves := brLeaves(n, 1<<pr[1])
-				scs = append(scs, brKeyScenario(brConfig{pr[0], pr[1], v, h, -1, 1, 0}))
+				scs = append(scs, brKeyScenario(brConfig{pr[0], pr[1], v, h, -1, 1, 0, false}))
 				if h == 1 || h == n/2 {
-					scs = append(scs, brGrowScenario(brConfig{pr[0], pr[1], v, h, -1, 1, 0}))
+					scs = append(scs, brGrowScenario(brConfig{pr[0], pr[1], v, h, -1, 1, 0, false}))
 				}
 				ivs := [][2]float64{{-1, 1}, {-4, 4}, {-1, 3}, {0, 2}}
 				for ii, iv := range ivs {
@@ -805,11 +867,57 @@ func brScenarios(tier string) []engine.Scenario {
 						if !thorough && ii == 2 && li != 0 && li != len(leaves)-1 {
 							continue // quick: asymmetric interval with one full pass and the subsets
 						}
-						scs = append(scs, brScenario(brConfig{pr[0], pr[1], v, h, iv[0], iv[1], li}))
+						scs = append(scs, brScenario(brConfig{pr[0], pr[1], v, h, iv[0], iv[1], li, false}))
 					}
 				}
 			}
 		}
+	}
+	scs = append(scs, brSizeScenarios(tier)...)
+	return scs
+}
+
+// brSizeScenarios: size thresholds. Large single LWE moduli against N_BR = 32..512 (products x·2N_BR beyond 64 bits),
+// and, in thorough, blind-rotation rings up to N = 2048 and LWE dimensions up to 1024.
+func brSizeScenarios(tier string) []engine.Scenario {
+	var scs []engine.Scenario
+	thorough := tier == "thorough"
+	seen := map[string]bool{}
+	add := func(lLWE, lBR int, v brVariant, hs []int, big bool, leaves []int) {
+		for _, h := range hs {
+			for _, li := range leaves {
+				cf := brConfig{lLWE, lBR, v, h, -1, 1, li, big}
+				if !seen[cf.name()] {
+					seen[cf.name()] = true
+					scs = append(scs, brScenario(cf))
+				}
+			}
+		}
+	}
+	lq := brLargeQVariants
+	all4, two := []int{0, 1, 2, 3}, []int{0, 1}
+	// 60 bits: Q·2N > 2^64 on every ring; whole circle on the small rings
+	add(4, 5, lq[0], []int{1, 8}, false, all4)
+	add(4, 6, lq[0], []int{1, 8}, false, []int{0, 3})
+	add(4, 5, lq[2], []int{8}, false, []int{0, 3})
+	// 55 bits: below the bound on N_BR = 32 (bit-identical region), above it on N_BR = 512
+	add(4, 5, lq[1], []int{1, 8}, false, []int{0, 3})
+	add(4, 9, lq[1], []int{1, 8}, true, two)
+	if thorough {
+		for _, lBR := range []int{6, 7, 8, 9} {
+			for _, v := range lq {
+				add(4, lBR, v, []int{1, 2, 8}, true, two)
+				add(5, lBR, v, []int{16}, true, two)
+			}
+		}
+		// ring sizes: N_BR up to 2048, LWE dimension up to 1024
+		add(4, 10, brVariants[0], []int{1, 8}, true, two)
+		add(4, 11, brVariants[0], []int{1, 8}, true, two)
+		add(4, 11, brVariants[3], []int{8}, true, []int{1})
+		add(8, 9, brVariants[0], []int{1, 128}, true, two)
+		add(8, 9, lq[1], []int{128}, true, []int{1})
+		add(10, 10, brVariants[0], []int{1}, true, []int{1})
+		add(10, 11, brVariants[0], []int{512}, true, []int{1})
 	}
 	return scs
 }
